@@ -228,11 +228,20 @@ pub async fn run_config(cfg_name: &str, rep: &mut Report, ops: &mut Vec<String>,
             if excluded { break; }
             let a = a1.account.lock().await;
             let log = a.device_log().await?;
-            log.write().await.apply(&[DeviceEvent::Revoke(dev_b_pub.clone())]).await?;
+            // in some configurations the revocation arrives in one patch together with a repeated Trust of the same,
+            // already trusted key (re-paired, then revoked, before the next sync): the net change of that patch is
+            // empty although the key must leave the trusted set
+            let repeated_trust = matches!(cfg_name, "allow" | "deny-other" | "both-allowed");
+            if repeated_trust {
+                log.write().await.apply(&[DeviceEvent::Trust(TrustedDevice::new(dev_b_pub.clone(), None, None)), DeviceEvent::Revoke(dev_b_pub.clone())]).await?;
+            } else {
+                log.write().await.apply(&[DeviceEvent::Revoke(dev_b_pub.clone())]).await?;
+            }
             drop(a);
             sync_http(&a1, &live.addr).await.map_err(|e| anyhow::anyhow!("sync revoke: {e}"))?;
             revoked = true;
-            dev_ops.push("p:r2".into());
+            dev_ops.push(if repeated_trust { "p:t2.r2".into() } else { "p:r2".into() });
+            rep.count(if repeated_trust { "revocation:trust-and-revoke-in-one-patch" } else { "revocation:single-event" });
             ops.push(format!("auth devices create=t1 ops={}", dev_ops.join(";"))); imp.push(server_devices(&live, &a1.id, &names).await);
         }
         for (method, handler, path, body, destructive) in &bodies {
@@ -338,7 +347,7 @@ pub async fn run_config(cfg_name: &str, rep: &mut Report, ops: &mut Vec<String>,
             .header("Authorization", format!("Bearer {tok}")).header("content-type", "application/x-protobuf").body(body.clone()).send().await.map(|r| r.status().as_u16()).unwrap_or(0);
         rep.count(&format!("forced-revocation:update_account:{code}"));
         if code == 200 {
-            dev_ops.push("f:t1.t2.t3.r2.r3".into());
+            dev_ops.push(if matches!(cfg_name, "allow" | "deny-other" | "both-allowed") { "f:t1.t2.t3.t2.r2.r3".into() } else { "f:t1.t2.t3.r2.r3".into() });
             ops.push(format!("auth devices create=t1 ops={}", dev_ops.join(";"))); imp.push(server_devices(&live, &a1.id, &names).await);
         }
         if code == 200 && c_ok_before == 200 {
